@@ -89,7 +89,6 @@ theorem SameBlks.heights {db db' : DB} (h : SameBlks db db') (hh : Heights db) :
 
 /-! ### adding a block that is not stored -/
 
-def appendBlk (db : DB) (b : Blk) : DB := { db with entries := db.entries ++ [⟨b, false⟩] }
 
 theorem wf_append (db : DB) (b : Blk) (hw : WfEntries db) (hb : WFin b) (hf : db.find b.id = none) :
     WfEntries (appendBlk db b) := by
@@ -160,26 +159,6 @@ theorem faithful_append (db : DB) (b : Blk) (l : List Entry) (h : Faithful db l)
   obtain ⟨e0, h0, h1⟩ := h e he
   have : e.blk.id ≠ b.id := by intro hc; rw [hc, hf] at h0; cases h0
   exact ⟨e0, by unfold appendBlk; rw [find_append_other db b _ this]; exact h0, h1⟩
-
-theorem computeLongestChain_cases (cfg : Config) (s : FState) (b : Blk) :
-    (∃ c cs, s.cache = some (c :: cs) ∧ b.parent = (((c :: cs).getLast?.map (fun (e : Entry) => e.blk.id)).getD "") ∧
-      s.db.libRef.id = c.blk.parent ∧ computeLongestChain cfg s b = some ((c :: cs) ++ [⟨b, false⟩])) ∨
-    computeLongestChain cfg s b = (s.db.reversibleSegment cfg.fsb b.ref).1 := by
-  unfold computeLongestChain
-  cases hcache : s.cache with
-  | none => right; simp
-  | some l =>
-    cases l with
-    | nil => right; simp
-    | cons c cs =>
-      simp only
-      by_cases hk : (b.parent == (((c :: cs).getLast?.map (fun (e : Entry) => e.blk.id)).getD "") && s.db.libRef.id == c.blk.parent) = true
-      · left
-        rw [if_pos hk]
-        simp only [Bool.and_eq_true, beq_iff_eq] at hk
-        exact ⟨c, cs, rfl, hk.1, hk.2, rfl⟩
-      · right
-        rw [if_neg hk]
 
 /-- the chain computed for a newly linked block is the path from the LIB to that block -/
 theorem compute_chain_path (cfg : Config) (s : FState) (P : List Id) (b : Blk) (hI : Inv s P) (hb : WFin b)
